@@ -214,6 +214,8 @@ def check(model: Model, run: Run) -> None:
                        "buffer[:k] and the retained buffer must be buffer[k:] for the same value k with no write in between "
                        "(b[:k] + b[k:] == b for every int k), and the drain path may touch nothing but the buffer")
     common_coverage(ex, run)
+    from .c07 import exit_does_not_swallow
+    exit_does_not_swallow(model, run)
     model.cls(BASE)
     # ---- (a) writer census over the package ---------------------------------
     writers = []
